@@ -81,6 +81,9 @@ func (mw *msgWriter) Write(payload []byte) (int, error) {
 
 	var n int
 	n, mw.err = mw.writer.Write(payload)
+	if mw.err == nil && n < len(payload) {
+		mw.err = io.ErrShortWrite
+	}
 	mw.bytesWritten += int64(n)
 	return n, mw.err
 }
@@ -493,6 +496,9 @@ func (mw *msgWriter) writeString(s string) {
 	}
 	var n int
 	n, mw.err = io.WriteString(mw.writer, s)
+	if mw.err == nil && n < len(s) {
+		mw.err = io.ErrShortWrite
+	}
 	mw.bytesWritten += int64(n)
 }
 
